@@ -74,14 +74,20 @@ enum GroupKind {
 }
 
 enum BlockPartition {
-    RequiresGroup(GroupKind, Vec<(String, StmtSemicolon)>),
+    /// The group kind, and the (variable name, statement, whether the statement is being formatted) of its members
+    RequiresGroup(GroupKind, Vec<(String, StmtSemicolon, bool)>),
     Other(Vec<StmtSemicolon>),
 }
 
-fn partition_nodes_into_groups(block: &Block) -> Vec<BlockPartition> {
+fn partition_nodes_into_groups(ctx: &Context, block: &Block) -> Vec<BlockPartition> {
     let mut parts = Vec::new();
+    let mut ctx = *ctx;
 
     for stmt in block.stmts_with_semicolon() {
+        // Keep track of `-- stylua: ignore start` / `-- stylua: ignore end` regions
+        ctx = ctx.check_toggle_formatting(&stmt.0);
+        let is_formatted = matches!(ctx.should_format_node(&stmt.0), FormatNode::Normal);
+
         if let Stmt::LocalAssignment(node) = &stmt.0 {
             if node.names().len() == 1 && node.expressions().len() == 1 {
                 let name = node.names().iter().next().unwrap();
@@ -125,7 +131,7 @@ fn partition_nodes_into_groups(block: &Block) -> Vec<BlockPartition> {
 
                     match parts.last_mut() {
                         Some(BlockPartition::RequiresGroup(_, map)) => {
-                            map.push((variable_name, stmt.clone()))
+                            map.push((variable_name, stmt.clone(), is_formatted))
                         }
                         _ => unreachable!(),
                     };
@@ -155,7 +161,7 @@ pub(crate) fn sort_requires(ctx: &Context, input_ast: Ast) -> Ast {
     let block = input_ast.nodes();
 
     // Find all `local NAME = require(EXPR)` lines
-    let parts = partition_nodes_into_groups(block);
+    let parts = partition_nodes_into_groups(ctx, block);
 
     // If there is only one non-require partition, or no partitions at all
     // then just return the original AST
@@ -171,10 +177,7 @@ pub(crate) fn sort_requires(ctx: &Context, input_ast: Ast) -> Ast {
         match part {
             BlockPartition::RequiresGroup(_, mut list) => {
                 // If any of the block is ignored, then ignore the whole thing
-                if list
-                    .iter()
-                    .any(|(_, stmt)| !matches!(ctx.should_format_node(stmt), FormatNode::Normal))
-                {
+                if list.iter().any(|(_, _, is_formatted)| !is_formatted) {
                     stmts.extend(list.iter().map(|x| x.1.clone()));
                     continue;
                 }
@@ -182,7 +185,7 @@ pub(crate) fn sort_requires(ctx: &Context, input_ast: Ast) -> Ast {
                 // Get the leading trivia of the first statement in the list, as that will be what
                 // is appended to the new statement
                 let leading_trivia = match list.first_mut() {
-                    Some((_, (Stmt::LocalAssignment(local_assignment), _))) => {
+                    Some((_, (Stmt::LocalAssignment(local_assignment), _), _)) => {
                         let trivia = local_assignment
                             .local_token()
                             .leading_trivia()
@@ -203,7 +206,7 @@ pub(crate) fn sort_requires(ctx: &Context, input_ast: Ast) -> Ast {
 
                 // Mutate the first element with our leading trivia
                 match list.first_mut() {
-                    Some((_, (Stmt::LocalAssignment(local_assignment), _))) => {
+                    Some((_, (Stmt::LocalAssignment(local_assignment), _), _)) => {
                         *local_assignment = local_assignment
                             .update_leading_trivia(FormatTriviaType::Replace(leading_trivia))
                     }
